@@ -31,15 +31,25 @@ EXPLANATION = (
     "did_upload in BackerUpper.upload, and every path on which tahoe_backup.mkdir returns the response body that "
     "upload_directory hands to did_create, passed a test establishing that the status of the very response the cap is "
     "read from is a 2xx code (membership / equality with 2xx constants, or an upper bound below 300) - otherwise the "
-    "body of an error response is stored as the cap of the unchanged file / directory and reused by every later run. "
+    "body of an error response is stored as the cap of the unchanged file / directory and reused by every later run; "
+    "(8) the directory key is an injective encoding of the contents on both sides: the hash check_directory looks a "
+    "directory up by and the hash DirectoryResult.did_create stores it under are the same computation, and every child's "
+    "name and cap reach its input through lossless steps only (abstract evaluation over reaching definitions: utf-8 "
+    "encoding, netstring, list/tuple building, sorting, concatenation, joining, helpers of the module by their return "
+    "values; any other call - Unicode normalisation, case folding, stripping - a slice, a comprehension filter, a "
+    "truncating format, an element removed from the list or the mapping consumes the component and is reported); "
+    "(9) likewise the key of a file's record: every value bound to column path of local_files, and the path given to "
+    "FileResult, carries the method's path parameter through lossless steps only (abspath_expanduser_unicode counts as "
+    "lossless: it maps spellings of one file to one key). "
     "Undecided: the t=check round trip of check_backupdb_file / check_backupdb_directory (should_check, HTTP status and "
     "'healthy' of the check, did_check_healthy: whether a recorded cap is still retrievable is not part of the property), "
     "durability (connection.commit() - an uncommitted record only causes a re-upload), whether a 2xx body really is a "
     "cap, whether the directory mkdir creates from create_contents has the children that compare_contents was hashed "
     "from (built by the caller, value-level), SQLite semantics, os.stat granularity (a change that preserves size, mtime and ctime), sorting of "
     "the directory entries (affects only how often a directory is re-created, not wrong reuse - planned clause "
-    "dropped), probability arithmetic of should_check.")
-TECHNIQUE = "static analysis: CFG must-precede gates over provenance roles, SQL/schema table extraction, interprocedural role propagation"
+    "dropped), probability arithmetic of should_check, whether a callee accepted as lossless by its name (netstring, to_bytes, "
+    "abspath_expanduser_unicode, base32.b2a) really is.")
+TECHNIQUE = "static analysis: CFG must-precede gates over provenance roles, SQL/schema table extraction, interprocedural role propagation, abstract evaluation of lossless value flow into the keys"
 
 BDB = "scripts.backupdb"
 TB = "scripts.tahoe_backup"
@@ -620,6 +630,501 @@ def http_success_edge(fl, folder, fn, n, lab, resp_call):
     return holds(n.ast, lab[0] == "T")
 
 
+# ------------------------------------------------- lossless value flow
+# Abstract values of the "which components arrive intact" evaluation (rules C42.8 / C42.9):
+#   TOP                       carries no component and constrains nothing (constants, empty literals, cycles)
+#   ("flat", atoms)           one string/bytes value from which the components `atoms` can be recovered
+#   ("seq", (v, ..))          a list/tuple literal of known length
+#   ("coll", v)               a collection whose every element is v
+#   ("dict", katoms, vatoms)  a mapping whose keys carry katoms and whose values carry vatoms
+TOP = ("top",)
+UTF8 = {"utf-8", "utf8", "utf_8", "u8", "utf"}
+STRICT_ERRORS = {"strict", "surrogateescape", "surrogatepass", "backslashreplace", "xmlcharrefreplace", "namereplace"}
+# one-argument callables that return an injective re-encoding of their argument (or the argument itself)
+IDENTITY_CALLS = {"netstring", "to_bytes", "to_str", "bytes", "str", "unicode", "ensure_binary", "ensure_text", "ensure_str",
+                  "b2a", "b2a_hex", "hexlify", "b64encode", "urlsafe_b64encode", "repr", "abspath_expanduser_unicode",
+                  "unicode_to_argv", "argv_to_unicode", "memoryview", "bytearray"}
+# callables that return the elements of their first argument (order / container type is irrelevant to the key)
+SEQUENCE_CALLS = {"sorted", "list", "tuple", "iter", "reversed", "set", "frozenset"}
+GROWING = {"append": 0, "add": 0, "insert": 1}
+SHRINKING = {"pop", "remove", "clear", "popitem", "discard", "__delitem__"}
+_PCT_PREC = re.compile(r"%(?:\([^)]*\))?[#0\- +]*(?:\*|\d+)?(?P<prec>\.(?:\*|\d+))?[hlL]?[diouxXeEfFgGcrsab%]")
+
+
+def _flat(atoms=()):
+    return ("flat", frozenset(atoms))
+
+
+def _atoms(v):
+    k = v[0]
+    if k == "flat":
+        return v[1]
+    if k == "seq":
+        out = frozenset()
+        for x in v[1]:
+            out |= _atoms(x)
+        return out
+    if k == "coll":
+        return _atoms(v[1])
+    if k == "dict":
+        return v[1] | v[2]
+    return frozenset()
+
+
+def _meet(vals):
+    """What is certain whichever of `vals` the value is (alternative definitions, elements appended at several sites)."""
+    vals = [v for v in vals if v != TOP]
+    if not vals:
+        return TOP
+    out = vals[0]
+    for v in vals[1:]:
+        if out[0] == v[0] == "seq" and len(out[1]) == len(v[1]):
+            out = ("seq", tuple(_meet([a, b]) for a, b in zip(out[1], v[1])))
+        elif out[0] == v[0] == "coll":
+            out = ("coll", _meet([out[1], v[1]]))
+        elif out[0] == v[0] == "dict":
+            out = ("dict", out[1] & v[1], out[2] & v[2])
+        elif out[0] == v[0] == "flat":
+            out = _flat(out[1] & v[1])
+        else:
+            out = _flat(_atoms(out) & _atoms(v))
+    return out
+
+
+def _elem(v):
+    """An element obtained by iterating over v."""
+    if v[0] == "coll":
+        return v[1]
+    if v[0] == "dict":
+        return _flat(v[1])
+    if v[0] == "seq":
+        return _meet(list(v[1])) if v[1] else TOP
+    return v
+
+
+def _destructure(target, v, out):
+    if isinstance(target, ast.Name):
+        out[target.id] = v
+    elif isinstance(target, ast.Starred):
+        _destructure(target.value, _flat(_atoms(v)) if v != TOP else TOP, out)
+    elif isinstance(target, (ast.Tuple, ast.List)):
+        plain = not any(isinstance(t, ast.Starred) for t in target.elts)
+        for i, t in enumerate(target.elts):
+            if v[0] == "seq" and plain and len(v[1]) == len(target.elts):
+                _destructure(t, v[1][i], out)
+            elif v[0] == "coll":
+                _destructure(t, v[1], out)
+            elif v == TOP:
+                _destructure(t, TOP, out)
+            else:
+                _destructure(t, _flat(_atoms(v)), out)
+    return out
+
+
+class _Frame:
+    def __init__(self, fn, fl, params, parent=None, at=None, depth=0):
+        self.fn, self.fl, self.params, self.parent, self.at, self.depth = fn, fl, params, parent, at, depth
+        self.cfg = fl.cfg
+
+
+class Lossless:
+    """Which components of a source value (the entries of check_directory's `contents`, the path of check_file) can
+    still be recovered from an expression?  A component survives list/tuple construction, iteration, sorting, framing
+    (netstring), concatenation, joining, utf-8 encoding and the like; any other call, a slice, a comprehension filter, a
+    truncating format or a comparison consumes it, and the consuming construct is remembered as a culprit.  Locals are
+    followed through their reaching definitions (alternatives are intersected), collections through every site that
+    adds to / removes from them, helpers of the same module through their return values."""
+
+    def __init__(self, roles, folder):
+        self.roles, self.folder = roles, folder
+        self.culprits = []       # (fn, node, what, atoms consumed)
+        self.opaque = []         # (fn, node): values the evaluation cannot see into (attributes, foreign state)
+        self._busy = set()
+        self.steps = 0
+
+    # -- bookkeeping
+    def lose(self, fr, node, what, atoms):
+        if atoms and not any(c[1] is node for c in self.culprits):
+            self.culprits.append((fr.fn, node, what, frozenset(atoms)))
+        return _flat()
+
+    def unknown(self, fr, node):
+        if not any(o[1] is node for o in self.opaque):
+            self.opaque.append((fr.fn, node))
+        return _flat()
+
+    def root(self, fn, params):
+        return _Frame(fn, self.roles.flow(fn), params)
+
+    # -- names
+    def name(self, fr, node, e, env):
+        if e.id in env:
+            return env[e.id]
+        ds = fr.fl.rd.get(node.id, {}).get(e.id)
+        if not ds:
+            if fr.parent is not None and fr.at is not None and e.id not in fr.fn.params:
+                return self.name(fr.parent, fr.at, e, {})
+            return self.unknown(fr, e)
+        vals = []
+        for d in sorted(ds):
+            key = (id(fr), d, e.id)
+            if key in self._busy:
+                vals.append(TOP)
+                continue
+            self._busy.add(key)
+            try:
+                if d == C.PARAM_DEF:
+                    v = fr.params.get(e.id)
+                    if v is None:
+                        v = self.unknown(fr, e)
+                    elif v[0] == "dict":
+                        v = self.unmodified(fr, e.id, v)
+                else:
+                    v = self.definition(fr, fr.cfg.nodes[d], e.id)
+            finally:
+                self._busy.discard(key)
+            vals.append(v)
+        v = _meet(vals)
+        if v[0] == "coll":
+            v = self.mutations(fr, e.id, v)
+        return v
+
+    def definition(self, fr, dn, name):
+        a = dn.ast
+        if dn.kind == "iter":
+            got = _destructure(a.target, _elem(self.ev(fr, dn, a.iter, {})), {})
+            return got.get(name, TOP)
+        if dn.kind == "stmt" and isinstance(a, (ast.Assign, ast.AnnAssign)) and a.value is not None:
+            v = self.ev(fr, dn, a.value, {})
+            for t in (a.targets if isinstance(a, ast.Assign) else [a.target]):
+                got = _destructure(t, v, {})
+                if name in got:
+                    return got[name]
+        if dn.kind == "stmt" and isinstance(a, ast.AugAssign) and isinstance(a.target, ast.Name) and a.target.id == name:
+            old = self.name(fr, dn, a.target, {})
+            new = self.ev(fr, dn, a.value, {})
+            if isinstance(a.op, ast.Add):
+                return self.concat(old, new)
+            return self.lose(fr, a, "the augmented assignment %s" % src(fr.fn, a), _atoms(old) | _atoms(new))
+        for x in (y for ex in node_exprs(dn) for y in own_nodes(ex)):
+            if isinstance(x, ast.NamedExpr) and isinstance(x.target, ast.Name) and x.target.id == name:
+                return self.ev(fr, dn, x.value, {})
+        return self.unknown(fr, a)
+
+    def unmodified(self, fr, pname, v):
+        """The mapping handed in is hashed as given: nothing removes, adds or replaces entries first."""
+        for x in func_own_nodes(fr.fn):
+            hit = None
+            if isinstance(x, ast.Call) and isinstance(x.func, ast.Attribute) and attr_path(x.func.value) == pname \
+                    and x.func.attr in (SHRINKING | {"update", "setdefault"}):
+                hit = x
+            elif isinstance(x, ast.Subscript) and isinstance(x.ctx, (ast.Store, ast.Del)) and attr_path(x.value) == pname:
+                hit = x
+            if hit is not None:
+                return self.lose(fr, hit, "%s, which changes %s before it is examined" % (src(fr.fn, hit), pname), _atoms(v))
+        return v
+
+    def mutations(self, fr, name, v):
+        key = (id(fr), "mut", name)
+        if key in self._busy:
+            return v
+        self._busy.add(key)
+        try:
+            elems = [v[1]]
+            for n in fr.cfg.nodes:
+                for x in (y for ex in node_exprs(n) for y in own_nodes(ex)):
+                    if isinstance(x, ast.Call) and isinstance(x.func, ast.Attribute) and attr_path(x.func.value) == name:
+                        t = x.func.attr
+                        if t in GROWING and len(x.args) > GROWING[t]:
+                            elems.append(self.ev(fr, n, x.args[GROWING[t]], {}))
+                        elif t == "extend" and x.args:
+                            elems.append(_elem(self.ev(fr, n, x.args[0], {})))
+                        elif t in SHRINKING:
+                            return ("coll", self.lose(fr, x, "%s, which removes entries" % src(fr.fn, x), _atoms(_meet(elems))))
+                    elif isinstance(x, ast.Subscript) and isinstance(x.ctx, ast.Del) and attr_path(x.value) == name:
+                        return ("coll", self.lose(fr, x, "del %s, which removes entries" % src(fr.fn, x), _atoms(_meet(elems))))
+            return ("coll", _meet(elems))
+        finally:
+            self._busy.discard(key)
+
+    @staticmethod
+    def concat(a, b):
+        if a == TOP:
+            return b
+        if b == TOP:
+            return a
+        if a[0] == b[0] == "coll":
+            return ("coll", _meet([a[1], b[1]]))
+        if a[0] == b[0] == "seq":
+            return ("seq", a[1] + b[1])
+        return _flat(_atoms(a) | _atoms(b))
+
+    # -- expressions
+    def ev(self, fr, node, e, env):
+        self.steps += 1
+        if self.steps > 20000:
+            raise AnalysisError("lossless-flow evaluation does not terminate in %s" % fr.fn.qual)
+        if e is None or isinstance(e, ast.Constant):
+            return TOP
+        if isinstance(e, ast.Name):
+            return self.name(fr, node, e, env)
+        if isinstance(e, (ast.List, ast.Tuple)):
+            if not e.elts:
+                return ("coll", TOP)
+            if any(isinstance(x, ast.Starred) for x in e.elts):
+                return ("coll", _meet([_elem(self.ev(fr, node, x.value, env)) if isinstance(x, ast.Starred)
+                                       else self.ev(fr, node, x, env) for x in e.elts]))
+            return ("seq", tuple(self.ev(fr, node, x, env) for x in e.elts))
+        if isinstance(e, ast.Set):
+            return ("coll", _meet([self.ev(fr, node, x, env) for x in e.elts]))
+        if isinstance(e, (ast.ListComp, ast.GeneratorExp, ast.SetComp, ast.DictComp)):
+            env2 = dict(env)
+            filters = []
+            for g in e.generators:
+                _destructure(g.target, _elem(self.ev(fr, node, g.iter, env2)), env2)
+                filters.extend(g.ifs)
+            if isinstance(e, ast.DictComp):
+                k, v = self.ev(fr, node, e.key, env2), self.ev(fr, node, e.value, env2)
+                out = ("dict", _atoms(k), _atoms(v))
+            else:
+                out = ("coll", self.ev(fr, node, e.elt, env2))
+            if filters:
+                self.lose(fr, filters[0], "the filter `if %s`, which leaves entries out" % src(fr.fn, filters[0]), _atoms(out))
+                return ("coll", _flat())
+            return out
+        if isinstance(e, ast.Starred):
+            return self.ev(fr, node, e.value, env)
+        if isinstance(e, ast.NamedExpr):
+            return self.ev(fr, node, e.value, env)
+        if isinstance(e, ast.IfExp):
+            return _meet([self.ev(fr, node, e.body, env), self.ev(fr, node, e.orelse, env)])
+        if isinstance(e, ast.BoolOp):
+            return _meet([self.ev(fr, node, x, env) for x in e.values])
+        if isinstance(e, ast.BinOp):
+            return self.binop(fr, node, e, env)
+        if isinstance(e, ast.JoinedStr):
+            out = frozenset()
+            for x in e.values:
+                if isinstance(x, ast.FormattedValue):
+                    v = self.ev(fr, node, x.value, env)
+                    if x.format_spec is not None:
+                        self.lose(fr, x, "the format specification in %s" % src(fr.fn, e), _atoms(v))
+                    else:
+                        out |= _atoms(v)
+            return _flat(out)
+        if isinstance(e, ast.Subscript):
+            return self.subscript(fr, node, e, env)
+        if isinstance(e, ast.Call):
+            return self.call(fr, node, e, env)
+        if isinstance(e, (ast.Compare, ast.UnaryOp)):
+            got = frozenset()
+            for x in ast.iter_child_nodes(e):
+                if isinstance(x, ast.expr):
+                    got |= _atoms(self.ev(fr, node, x, env))
+            return self.lose(fr, e, "%s, of which only the outcome is kept" % src(fr.fn, e), got) if got else TOP
+        if isinstance(e, ast.Attribute):
+            base = self.quiet(fr, node, e.value, env)
+            if _atoms(base):
+                return self.lose(fr, e, "the attribute %s" % src(fr.fn, e), _atoms(base))
+            return self.unknown(fr, e)
+        return self.unknown(fr, e)
+
+    def quiet(self, fr, node, e, env):
+        """Evaluate without remembering what could not be seen into (receivers such as modules, self, constants)."""
+        keep = list(self.opaque)
+        try:
+            return self.ev(fr, node, e, env)
+        finally:
+            self.opaque = keep
+
+    def binop(self, fr, node, e, env):
+        lhs, rhs = self.ev(fr, node, e.left, env), self.ev(fr, node, e.right, env)
+        if isinstance(e.op, ast.Add):
+            return self.concat(lhs, rhs)
+        if isinstance(e.op, ast.Mod) and not _atoms(lhs):
+            try:
+                tpl = self.folder.fold(fr.fl.resolve(node, e.left), fr.fn.module, fr.fn.cls)
+            except NotConstant:
+                tpl = None
+            if isinstance(tpl, bytes):
+                tpl = tpl.decode("latin-1")
+            if not isinstance(tpl, str):
+                return self.lose(fr, e, "the formatting %s (template not constant)" % src(fr.fn, e), _atoms(rhs))
+            if any(m.group("prec") for m in _PCT_PREC.finditer(tpl)):
+                return self.lose(fr, e, "the truncating format %r" % tpl, _atoms(rhs))
+            return _flat(_atoms(rhs))
+        if isinstance(e.op, ast.Mult):
+            return _flat(_atoms(lhs) | _atoms(rhs))
+        got = _atoms(lhs) | _atoms(rhs)
+        return self.lose(fr, e, "the arithmetic %s" % src(fr.fn, e), got) if got else TOP
+
+    def subscript(self, fr, node, e, env):
+        base = self.ev(fr, node, e.value, env)
+        if isinstance(e.slice, ast.Slice):
+            return self.lose(fr, e, "the slice %s, which truncates" % src(fr.fn, e), _atoms(base))
+        if base[0] == "dict":
+            k = self.ev(fr, node, e.slice, env)
+            if k[0] == "flat" and base[1] and base[1] <= k[1]:
+                return _flat(base[2])
+            return self.lose(fr, e, "%s, which is not the value stored for the entry's own key" % src(fr.fn, e), base[2])
+        const = isinstance(e.slice, ast.Constant) and isinstance(e.slice.value, int)
+        if base == TOP:
+            return TOP
+        if base[0] == "seq":
+            if const and -len(base[1]) <= e.slice.value < len(base[1]):
+                return base[1][e.slice.value]
+            return _elem(base)
+        if base[0] == "coll":
+            if const:
+                return self.lose(fr, e, "%s, which picks one element" % src(fr.fn, e), _atoms(base))
+            return base[1]
+        # component i of a value whose structure was not followed: lenient, the whole value
+        return base
+
+    @staticmethod
+    def codec_ok(call):
+        enc = arg(call, 0, "encoding")
+        err = arg(call, 1, "errors")
+        if enc is not None and not (isinstance(enc, ast.Constant) and isinstance(enc.value, str)
+                                    and enc.value.lower() in UTF8):
+            return False
+        return err is None or (isinstance(err, ast.Constant) and err.value in STRICT_ERRORS)
+
+    def callee(self, fr, e):
+        f = e.func
+        if isinstance(f, ast.Name):
+            x = fr
+            while x is not None:
+                if f.id in x.fn.nested:
+                    return x.fn.nested[f.id], x
+                x = x.parent
+            g = fr.fn.module.funcs.get(f.id)
+            return (g, None) if g is not None and g.cls is None and g.parent is None else (None, None)
+        if isinstance(f, ast.Attribute) and isinstance(f.value, ast.Name) and f.value.id == "self" and fr.fn.cls is not None:
+            g = fr.fn.cls.lookup(f.attr)
+            return (g, None) if g is not None and g.module is fr.fn.module else (None, None)
+        return None, None
+
+    def call(self, fr, node, e, env):
+        tail = call_tail(e)
+        args = [self.ev(fr, node, a, env) for a in e.args] + [self.ev(fr, node, k.value, env) for k in e.keywords
+                                                            if k.arg not in ("key", "reverse")]
+        got = frozenset()
+        for a in args:
+            got |= _atoms(a)
+        recv = None
+        if isinstance(e.func, ast.Attribute):
+            recv = self.quiet(fr, node, e.func.value, env)
+        what = "the call %s" % src(fr.fn, e)
+        if recv is not None and (recv[0] in ("dict", "coll", "seq") or _atoms(recv)):
+            # a method of the data itself
+            if recv[0] == "dict":
+                if tail in ("keys", "iterkeys", "viewkeys", "__iter__"):
+                    return ("coll", _flat(recv[1]))
+                if tail in ("values", "itervalues", "viewvalues"):
+                    return ("coll", _flat(recv[2]))
+                if tail in ("items", "iteritems", "viewitems"):
+                    return ("coll", ("seq", (_flat(recv[1]), _flat(recv[2]))))
+                if tail == "copy":
+                    return recv
+                if tail == "get" and len(e.args) == 1 and args[0][0] == "flat" and recv[1] and recv[1] <= args[0][1]:
+                    return _flat(recv[2])
+                return self.lose(fr, e, what, _atoms(recv) | got)
+            if recv[0] in ("coll", "seq"):
+                if tail in ("copy", "__iter__"):
+                    return recv
+                return self.lose(fr, e, what, _atoms(recv) | got)
+            if tail in ("encode", "decode") and self.codec_ok(e):
+                return recv
+            if tail == "hex" and not e.args:
+                return recv
+            if tail == "join" and len(e.args) == 1:
+                return _flat(_atoms(recv) | got)
+            if tail == "format":
+                return _flat(_atoms(recv) | got)
+            return self.lose(fr, e, what + ", which is not a lossless re-encoding", _atoms(recv) | got)
+        # a function (or a method of something that is not the data)
+        if tail == "join" and len(e.args) == 1 and isinstance(e.func, ast.Attribute):
+            return _flat(got)
+        if tail == "format" and isinstance(e.func, ast.Attribute):
+            try:
+                tpl = self.folder.fold(fr.fl.resolve(node, e.func.value), fr.fn.module, fr.fn.cls)
+            except NotConstant:
+                tpl = None
+            if isinstance(tpl, (str, bytes)) and ":" not in (tpl if isinstance(tpl, str) else tpl.decode("latin-1")):
+                return _flat(got)
+            return self.lose(fr, e, what, got)
+        if tail in IDENTITY_CALLS and len(e.args) >= 1:
+            if tail in ("str", "bytes", "unicode", "bytearray") and (len(e.args) > 1 or e.keywords) and not self.codec_ok(
+                    ast.Call(func=e.func, args=e.args[1:], keywords=e.keywords)):
+                return self.lose(fr, e, what, got)
+            return _flat(_atoms(args[0]))
+        if tail in SEQUENCE_CALLS and len(e.args) == 1:
+            a = args[0]
+            if a[0] == "dict":
+                return ("coll", _flat(a[1]))
+            if a[0] == "seq":
+                return a if tail in ("list", "tuple") else ("coll", _elem(a))
+            return a
+        if tail == "dict" and len(e.args) == 1 and not e.keywords:
+            a = args[0]
+            if a[0] == "dict":
+                return a
+            el = _elem(a)
+            if el[0] == "seq" and len(el[1]) == 2:
+                return ("dict", _atoms(el[1][0]), _atoms(el[1][1]))
+            return self.lose(fr, e, what, got)
+        if tail == "enumerate" and e.args:
+            return ("coll", ("seq", (TOP, _elem(args[0]))))
+        if tail == "zip" and e.args and not e.keywords:
+            return ("coll", ("seq", tuple(_elem(a) for a in args)))
+        g, owner = self.callee(fr, e)
+        if g is not None and fr.depth < 3 and not isinstance(g.node, ast.Lambda):
+            key = ("call", g.qual)
+            if key not in self._busy:
+                ps = first_positional_params(g)
+                params = {}
+                for i, p in enumerate(ps):
+                    a = arg(e, i, p)
+                    params[p] = self.ev(fr, node, a, env) if a is not None else TOP
+                at = None
+                if owner is not None:
+                    for pn in owner.cfg.nodes:
+                        if pn.kind == "stmt" and pn.ast is g.node:
+                            at = pn
+                sub = _Frame(g, self.roles.flow(g), params, parent=owner, at=at, depth=fr.depth + 1)
+                rets = [n for n in sub.cfg.find(is_return) if n.ast.value is not None]
+                if rets:
+                    self._busy.add(key)
+                    try:
+                        return _meet([self.ev(sub, n, n.ast.value, {}) for n in rets])
+                    finally:
+                        self._busy.discard(key)
+        if got:
+            return self.lose(fr, e, what + ", which is not a lossless re-encoding", got)
+        return self.unknown(fr, e)
+
+    def verdicts(self, value, want):
+        """[(component, [culprit, ..])] for the components of `want` that `value` no longer carries; raises when the
+        loss cannot be attributed and part of the flow could not be seen into."""
+        out = []
+        for a in sorted(set(want) - set(_atoms(value))):
+            cs = [c for c in self.culprits if a in c[3]]
+            if not cs and self.opaque:
+                fn, x = self.opaque[0]
+                raise AnalysisError("cannot tell whether component %r reaches the key: the value of %s at %s is not followed" % (
+                    a, src(fn, x), fn.loc(x)))
+            out.append((a, cs))
+        return out
+
+
+def _with_nested(f):
+    yield f
+    for g in f.nested.values():
+        for x in _with_nested(g):
+            yield x
+
+
 def run(ctx: Context):
     idx = ctx.idx
     roles = Roles(idx)
@@ -879,19 +1384,20 @@ def run(ctx: Context):
             lvars = [x.id for x in ast.walk(loop.ast.target) if isinstance(x, ast.Name)]
             ok = isinstance(el, (ast.List, ast.Tuple)) and len(el.elts) == 2
             if ok:
-                n0 = names_in(el.elts[0])
-                e1 = el.elts[1]
-                ok = bool(n0 & set(lvars)) and cparam not in n0
-                if isinstance(e1, ast.Subscript):
-                    ok = ok and attr_path(e1.value) == cparam and isinstance(e1.slice, ast.Name) and e1.slice.id in lvars
-                else:
-                    ok = ok and isinstance(e1, ast.Name) and e1.id in lvars and isinstance(loop.ast.iter, ast.Call) \
-                        and call_tail(loop.ast.iter) == "items"
+                # the two components are the child's name and its cap, however they are spelled (temporaries, .items());
+                # a lossy step applied to one of them is reported, with the step, by C42.8
+                L3 = Lossless(roles, get_folder(idx))
+                v3 = L3.ev(L3.root(fn, {cparam: ("dict", frozenset(["name"]), frozenset(["cap"]))}), an, el, {})
+                ok = {"name", "cap"} <= set(_atoms(v3)) or bool(L3.culprits)
             r.require(ok, fn, fn.loc(ac), "the entry appended for a child is %s, not [name, %s[name]]" % (
                 src(fn, el) if el is not None else "?", cparam))
             # nothing else feeds the list between the loop and the join (no truncation)
             for n in cfg.nodes:
-                if n.kind == "stmt" and ent.id in node_stores(n) and not isinstance(n.ast.value if isinstance(n.ast, ast.Assign) else None, ast.List):
+                val = n.ast.value if n.kind == "stmt" and isinstance(n.ast, ast.Assign) else None
+                if isinstance(val, ast.Call) and call_tail(val) in SEQUENCE_CALLS and len(val.args) == 1 \
+                        and isinstance(val.args[0], ast.Name) and val.args[0].id == ent.id:
+                    continue          # entries = sorted(entries): the same elements
+                if n.kind == "stmt" and ent.id in node_stores(n) and not isinstance(val, ast.List):
                     r.violation(fn, fn.loc(n.ast), "%s is rebound by %r before it is hashed" % (ent.id, n))
                 for c in node_calls(n):
                     if attr_path(getattr(c.func, "value", None)) == ent.id and call_tail(c) in ("pop", "remove", "clear", "insert", "extend"):
@@ -1206,3 +1712,137 @@ def run(ctx: Context):
                             "path that never established that the response's status is a success (2xx) code: upload_directory "
                             "records the error text for the directory's contents and every later backup reuses it instead "
                             "of creating the directory (path: %s)" % w.brief(), w)
+
+    # -- 8. the directory key is an injective encoding of the contents, on both sides ----
+    with ctx.rule("C42.8", "R2", "the key check_directory looks a directory up by - and the key did_create stores it under - "
+                  "is one and the same hash, whose input every child's name and cap reach through lossless steps only "
+                  "(utf-8 encoding, netstring framing, list/tuple building, sorting, concatenation, joining): a "
+                  "normalisation, case folding, stripping, slicing, filter, truncating format or any other call on the way "
+                  "makes different name-to-cap contents share a key", expected=3) as r:
+        fn = idx.func(DB_CLS + ".check_directory")
+        cparam = first_positional_params(fn)[0]
+        fl = roles.flow(fn)
+        folder = get_folder(idx)
+        lookups = []
+        for n in fn.cfg().nodes:
+            for c in calls_at(n, "execute"):
+                sql = roles.sql_of(fn, c)
+                if sql.kind != "SELECT" or "directories" not in sql.tables or "dirhash" not in sql.where:
+                    continue
+                b = fl.resolve(n, arg(c, 1))
+                if not (isinstance(b, (ast.Tuple, ast.List)) and len(b.elts) == len(sql.ph)):
+                    raise AnalysisError("values bound to %r are not a literal tuple" % sql.text)
+                k = b.elts[sql.ph.index("dirhash")]
+                r.site(fn, c, "lookup key")
+                for part in roles.parts(roles.role(fn, n, k)):
+                    if part is not None and part[0] == "dirhash":
+                        if not any(part[1] is h for (h, _f) in lookups):
+                            lookups.append((part[1], part[2]))
+                    else:
+                        raise AnalysisError("the directory lookup key %s is not a directory hash (see C42.3)" % src(fn, k))
+        if not lookups:
+            raise AnchorVanished("check_directory no longer SELECTs FROM directories WHERE dirhash=?")
+        hashes = list(lookups)
+
+        def norm_of(h, hf):
+            return roles.flow(hf).norm(roles.node_of(hf, h), h)
+        for m in sorted((g for f in dbc.methods.values() for g in _with_nested(f)), key=lambda f: f.lineno):
+            for n in m.cfg().nodes:
+                for c in calls_at(n, "execute"):
+                    sql = roles.sql_of(m, c)
+                    written = sql.ph[:len(sql.ph) - len(sql.where)] if sql.kind == "UPDATE" else sql.ph
+                    if sql.kind not in ("INSERT", "UPDATE") or sql.tables != ["directories"] or "dirhash" not in written:
+                        continue
+                    r.site(m, c, "stored key")
+                    binds = roles.flow(m).resolve(n, arg(c, 1))
+                    if not isinstance(binds, (ast.Tuple, ast.List)) or len(binds.elts) != len(sql.ph):
+                        raise AnalysisError("values bound to %r are not a literal tuple of %d" % (sql.text, len(sql.ph)))
+                    b = binds.elts[written.index("dirhash")]
+                    for part in roles.parts(roles.role(m, n, b)):
+                        if part is None:
+                            raise AnalysisError("cannot determine where the key %s stored by %r comes from" % (src(m, b), sql.text))
+                        if part[0] == "bad":
+                            r.violation(part[2], part[2].loc(part[3]), "%r: the key stored is %s" % (sql.text, part[1]))
+                        elif part[0] != "dirhash":
+                            r.violation(m, m.loc(c), "%r stores the directory under %s, which is %s and not the hash of its "
+                                        "contents that check_directory looks it up by" % (sql.text, src(m, b), roles.sem(part) or part[0]))
+                        elif not any(part[1] is h for (h, _f) in hashes):
+                            same = [h for (h, hf) in lookups if norm_of(h, hf) == norm_of(part[1], part[2])]
+                            hashes.append((part[1], part[2]))
+                            r.require(bool(same), part[2], part[2].loc(part[1]), "the directory record is stored under %s but "
+                                      "looked up by %s: the two keys are computed differently, so a directory can be found "
+                                      "under the key of different contents" % (src(part[2], part[1]), src(lookups[0][1], lookups[0][0])))
+        for (h, hf) in hashes:
+            if hf is not fn or not h.args:
+                raise AnalysisError("the directory hash %s is not computed in check_directory" % src(hf, h))
+            r.site(fn, h, "hash input")
+            L = Lossless(roles, folder)
+            fr = L.root(fn, {cparam: ("dict", frozenset(["name"]), frozenset(["cap"]))})
+            v = L.ev(fr, roles.node_of(fn, h), h.args[0], {})
+            r.count(L.steps)
+            for (comp, culprits) in L.verdicts(v, ("name", "cap")):
+                for (cfn, x, what, eaten) in culprits:
+                    r.violation(cfn, cfn.loc(x), "each child's %s reaches the directory hash %s only through %s: contents that "
+                                "differ only in what that step discards get the same key, and the dircap recorded for one is "
+                                "reused for the other" % (comp, src(fn, h), what))
+                if not culprits:
+                    r.violation(fn, fn.loc(h), "the %s of the children of %s never reaches the input of the directory hash %s: "
+                                "directories that differ only in it share a key and the old dircap is reused" % (comp, cparam, src(fn, h)))
+
+    # -- 9. the file key is the path itself -----------------------------------
+    with ctx.rule("C42.9", "R1", "the key a file's record is stored under and looked up by (column path of local_files, and "
+                  "the path handed to FileResult) carries the method's path parameter through lossless steps only "
+                  "(abspath_expanduser_unicode, encoding): a case fold, normalisation, basename or slice makes different "
+                  "files share a record, and the cap of one is reused for the other", expected=7) as r:
+        folder = get_folder(idx)
+        RAW = ENTRY[("BackupDB_v2.check_file", 0)]
+
+        def carried(m, n, e, what):
+            chain, f = [], m
+            while f is not None:
+                chain.append(f)
+                f = f.parent
+            L = Lossless(roles, folder)
+            fr, srcs = None, []
+            for f in reversed(chain):         # a nested function reads the path of the method it is defined in
+                mine = [p for p in first_positional_params(f) if roles.sem(roles.param_role(f, p)) in ("path", RAW)]
+                srcs += mine
+                at = None
+                if fr is not None:
+                    at = next((pn for pn in fr.cfg.nodes if pn.kind == "stmt" and pn.ast is f.node), None)
+                fr = _Frame(f, roles.flow(f), {p: _flat(["path"]) for p in mine}, parent=fr, at=at)
+            if not srcs:
+                raise AnalysisError("%s binds a path but none of its parameters is a path" % m.qual)
+            v = L.ev(fr, n, e, {})
+            r.count(L.steps)
+            for (_comp, culprits) in L.verdicts(v, ("path",)):
+                for (cfn, x, how, eaten) in culprits:
+                    r.violation(cfn, cfn.loc(x), "%s is derived from the file's path only through %s: two different files "
+                                "whose paths differ only in what that step discards share one record, and a file is told to "
+                                "reuse the cap uploaded for the other" % (what, how))
+                if not culprits:
+                    r.violation(m, m.loc(e), "%s (%s) does not carry the path of the file (%s)" % (what, src(m, e), ", ".join(srcs)))
+        for m in sorted((g for f in dbc.methods.values() for g in _with_nested(f)), key=lambda f: f.lineno):
+            for n in m.cfg().nodes:
+                for c in calls_at(n, "execute"):
+                    sql = roles.sql_of(m, c)
+                    if "local_files" not in sql.tables or "path" not in sql.ph:
+                        continue
+                    r.site(m, c, sql.text[:40])
+                    binds = roles.flow(m).resolve(n, arg(c, 1))
+                    if not isinstance(binds, (ast.Tuple, ast.List)) or len(binds.elts) != len(sql.ph):
+                        raise AnalysisError("values bound to %r are not a literal tuple of %d" % (sql.text, len(sql.ph)))
+                    for col, b in zip(sql.ph, binds.elts):
+                        if col == "path":
+                            carried(m, n, b, "the value bound to column path of %r" % sql.text)
+        fn = idx.func(DB_CLS + ".check_file")
+        fr_init = idx.func(BDB + ":FileResult.__init__")
+        ppos = first_positional_params(fr_init).index("path")
+        for m in _with_nested(fn):
+            for n in m.cfg().nodes:
+                for c in calls_at(n, "FileResult"):
+                    a = arg(c, ppos, "path")
+                    if a is None:
+                        raise AnalysisError("FileResult(..) without a path at %s" % m.loc(c))
+                    r.site(m, c, "path of the result")
+                    carried(m, n, a, "the path the FileResult records the upload under")
